@@ -419,7 +419,7 @@ def judgeScript (pid : String) (inp obs : Json) : Except String Verdict := do
   let opsJ ← getArr inp "ops"
   let ops ← opsJ.mapM getOp
   let crashed := getStrD obs "crashed"
-  let cover0 := ["script", "note:" ++ note, s!"qlen:{qlen}"]
+  let cover0 := ["script", "note:" ++ note, s!"qlen:{qlen}", if getBoolD obs "late_closed" then "open-after-close:closed" else "open-after-close:open"]
   if crashed != "" then
     return { agree := false, spec := false, why := s!"implementation {crashed}", sig := pid ++ ":crashed",
              cover := cover0 ++ ["crashed"], nontrivial := true }
@@ -434,7 +434,9 @@ def judgeScript (pid : String) (inp obs : Json) : Except String Verdict := do
   let late : List (Nat × Seen) ← lateJ.mapM fun j => do
     pure ((← getNat j "op"), (← getSeen (← getObj j "res")))
   -- model: accept result by result
-  let mut s := Sys.init { mp := mp, qlen := qlen }
+  -- what Open does on a closed mux is measured on the code the observation comes from
+  let lateClosed := getBoolD obs "late_closed"
+  let mut s := Sys.init { mp := mp, qlen := qlen, lateClosed := lateClosed }
   let mut agree := true
   let mut why := ""
   let mut idx := 0
